@@ -70,9 +70,36 @@ def history_case(rng, maxlen):
     line = "recon %s %s %d %s | %s%s%s%s%s" % (enc(us), enc(ps), k, " ".join(toks), salt.hex(), b.hex(), a.hex(), chal0.hex(), "".join(x.hex() for x in draws))
     return Case(line, "history-len-%s(%d attempt kinds)" % ("1" if k == 1 else "2..8" if k <= 8 else "9..64" if k <= 64 else ">64", len(kinds)), " ".join(exp) + " ~%d" % (112 + 16 * k), dict(k=k))
 
+def refusal_run_case(rng, run, tail):
+    """a long run of consecutive REFUSED attempts (past 2^8, in the thorough tier past 2^16: any per-session count of failures lives
+    in some machine integer), then the legitimate client still gets in, then a replay of that accepted pair is refused"""
+    while True:
+        us, ps = cred(rng), cred(rng)
+        salt, b, a, chal0 = rbytes(rng, 32), rbytes(rng, 32), rbytes(rng, 32), rbytes(rng, 16)
+        s = pyref.Session(us, ps, salt, b, a)
+        if s.A % N != 0 and s.B % N != 0: break
+    cur = chal0; toks = []; draws = []; exp = ["ok", chal0.hex()]
+    good = None
+    for i in range(run + tail):
+        cd = rbytes(rng, 16)
+        if i < run:
+            proof = rbytes(rng, 20) if i % 3 else flip(pyref.reconnect_proof(s.U, cd, cur, s.K), rng.randrange(160))
+        elif i == run or good is None:
+            proof = pyref.reconnect_proof(s.U, cd, cur, s.K); good = (cd, proof)
+        else:
+            cd, proof = good if i % 2 else (cd, pyref.reconnect_proof(s.U, cd, cur, s.K))
+        verdict = 1 if proof == pyref.reconnect_proof(s.U, cd, cur, s.K) else 0
+        d = rbytes(rng, 16); draws.append(d); toks += [cd.hex(), proof.hex()]; cur = d
+        exp += [str(verdict), d.hex()]
+    k = run + tail
+    line = "recon %s %s %d %s | %s%s%s%s%s" % (enc(us), enc(ps), k, " ".join(toks), salt.hex(), b.hex(), a.hex(), chal0.hex(), "".join(x.hex() for x in draws))
+    return Case(line, "run-of-%d-refusals-then-legitimate" % run, " ".join(exp) + " ~%d" % (112 + 16 * k), dict(k=k))
+
 def generate(rng, tier):
     cs = []
     n, maxlen = (400, 40) if tier == "quick" else (20000, 1000)
+    for run in ([255, 256, 257, 300] if tier == "quick" else [255, 256, 257, 511, 512, 1000, 65535, 65536, 65537, 70000]):
+        cs.append(refusal_run_case(rng, run, 4))
     for _ in range(n):
         c = history_case(rng, maxlen if rng.random() < 0.3 else 8)
         if c: cs.append(c)
